@@ -5,11 +5,18 @@ exponents) and `LinearFilter.smooth` (values of the smoothed image) vs the Lean
 model (exact rationals, tolerance for FFT round-off); `fwhm2sigma`/`sigma2fwhm`;
 refusals.  Oracle: the property's clauses evaluated on the real code against an
 independently written direct convolution with the world-unit Gaussian.
+
+Extension round: operation histories on one filter object (`hist`: several stored images, spatial and
+pre-transformed, `clean`/`is_fft`, re-assigned normalisation/scale/location/fwhm) against the model's state
+machine; `_crop` on arbitrary arrays; the norms table; the computed margins of the "away from the borders"
+clauses (tested at exactly the margin and one voxel inside it); the `cov` branch as built; exhaustive
+impulse positions on small grids; fwhm.py (`Resels`, `_calc_detlam`, refusals of `ReselImage`).
 """
 from __future__ import annotations
 
 import math
 import warnings
+from fractions import Fraction
 
 import numpy as np
 
@@ -79,6 +86,89 @@ def _rand_case(rng, tier, sizes):
             "ab": [rng.choice([1.0, 2.0, -0.5, 3.0]), rng.choice([1.0, -1.0, 0.25])]}
 
 
+def _geom_part(rng, sizes):
+    shape = [rng.choice(sizes) for _ in range(3)]
+    kind, lin = rng.choice(LINEARS)
+    trans = [rng.choice([0, 0, -3.5, 12, 0.25]) for _ in range(3)]
+    aff = [list(map(float, lin[i])) + [float(trans[i])] for i in range(3)] + [[0.0, 0.0, 0.0, 1.0]]
+    vs = [math.sqrt(sum(lin[r][c] ** 2 for r in range(3))) for c in range(3)]
+    r = rng.random()
+    if r < 0.5:
+        fwhm = rng.choice(SMALL_RATIOS) * min(vs)
+    elif r < 0.85:
+        fwhm = rng.choice(RATIOS[:4]) * rng.choice(vs)
+    elif r < 0.93:
+        fwhm = -rng.choice(RATIOS[:3]) * rng.choice(vs)       # only fwhm**2 enters
+    else:
+        fwhm = [rng.choice(SMALL_RATIOS + RATIOS[:3]) * rng.choice(vs) for _ in range(rng.choice([3, 3, 4]))]
+    return shape, aff, kind, fwhm
+
+
+def _hist_case(rng, tier):
+    """one filter object, several caller images, a history of operations"""
+    shape, aff, kind, fwhm = _geom_part(rng, [1, 2, 2, 3, 3, 4, 4, 5])
+    imgs = []
+    for _ in range(rng.choice([1, 2, 2, 3])):
+        imgs.append({"t": "s", "seed": rng.randrange(1 << 30), "nan": rng.choice([0, 0, 0, 1, 2]),
+                     "inf": rng.choice([0, 0, 0, 0, 0, 1])})
+    clean_ix = [i for i, d in enumerate(imgs) if not d["nan"] and not d["inf"]]
+    for _ in range(rng.choice([0, 1, 1, 2])):
+        if clean_ix and rng.random() < 0.6:
+            imgs.append({"t": "p", "of": rng.choice(clean_ix)})     # transform of the zero-padded image `of`
+        else:
+            imgs.append({"t": "p", "seed": rng.randrange(1 << 30)})  # transform of an arbitrary buffer
+    ops = []
+
+    def smooth_op():
+        i = rng.randrange(len(imgs))
+        isf = (imgs[i]["t"] == "p") if rng.random() < 0.9 else (imgs[i]["t"] != "p")
+        return ["smooth", i, rng.random() < 0.4, isf]
+    for _ in range(rng.choice([2, 3, 4, 6, 8])):
+        r = rng.random()
+        if r < 0.72:
+            ops.append(smooth_op())
+        elif r < 0.82:
+            ops.append(["norm", rng.choice(["l1sum", "l1", "l2", "l2", "l1sum", "L1", "sum"])])
+        elif r < 0.9:
+            ops.append(["scale", rng.choice([1.0, 2.0, 0.5, -1.0, 0.0])])
+        elif r < 0.96:
+            ops.append(["loc", rng.choice([0.0, 1.0, -2.5, 64.0])])
+        else:
+            ops.append(["fwhm", rng.choice([1.0, 100.0, 0.25])])
+    firsts = [o for o in ops if o[0] == "smooth"] or [smooth_op()]
+    ops.append(list(firsts[0]))                      # A, …, A again
+    if rng.random() < 0.5:
+        ops.append(list(rng.choice(firsts)))
+    return {"kind": "hist", "shape": shape, "aff": aff, "afftag": kind, "fwhm": fwhm,
+            "norm": rng.choice(["l1sum"] * 4 + ["l1", "l2"]), "scale": rng.choice([1.0] * 3 + [2.0, -0.5]),
+            "loc": rng.choice([0.0] * 3 + [1.0, -8.0]), "imgs": imgs, "ops": ops}
+
+
+def _crop_case(rng):
+    shape = [rng.choice([1, 1, 2, 3, 4, 5]) for _ in range(3)]
+    return {"kind": "crop", "shape": shape, "seed": rng.randrange(1 << 30),
+            "density": rng.choice([0.0, 0.05, 0.2, 0.5, 1.0]), "tol": rng.choice([1e-10, 0.0, 0.5, 1.0, 2.0]),
+            "tiny": rng.random() < 0.3}
+
+
+def _resel_case(rng):
+    kind, lin = rng.choice(LINEARS)
+    return {"kind": "resel", "lin": lin, "afftag": kind, "D": rng.choice([3, 3, 3, 2, 1]),
+            "f": [rng.choice([0.0, 1.0, 2.5, 6.0, -1.0, 0.125, rng.randrange(1, 640) / 32.0]) for _ in range(4)],
+            "seed": rng.randrange(1 << 30), "n": rng.choice([1, 2, 5, 12]),
+            "mask": rng.choice(["none", "bool", "float", "zero"])}
+
+
+def _cov_case(rng):
+    shape, aff, kind, fwhm = _geom_part(rng, [1, 2, 3, 3, 3, 4, 5])
+    if rng.random() < 0.55:
+        shape[1] = 3
+    if isinstance(fwhm, list):
+        fwhm = fwhm[:3]
+    cov = rng.choice(COVS + [[[1, 2, 0], [2, 1, 0], [0, 0, 1]]])      # the last one is not positive definite
+    return {"kind": "covk", "shape": shape, "aff": aff, "afftag": kind, "fwhm": fwhm, "cov": cov}
+
+
 _FROZEN = False
 
 
@@ -121,28 +211,41 @@ def direct_smooth(x, K, c, normval, scale, loc):
 class C18(PropertyCheck):
     id = "C18"
     title = "Gaussian smoothing is linear, centred, normalised and scaled in world units"
-    lean_modules = ["NipyVerif.Props.C18"]
+    lean_modules = ["NipyVerif.Props.C18", "NipyVerif.Props.C18B"]
     driver = "Drivers/C18.lean"
-    rule = ("cases are (grid shape, affine, FWHM, covariance, normalisation, scale, location, impulse "
-            "position, image seed) tuples from a seeded PRNG plus the exhaustive small list of grid parities; "
-            "non-trivial = the cropped kernel is larger than one voxel (smoothing is not the identity); "
-            "distinct by full JSON of the case")
+    rule = ("cases are (grid shape, affine, FWHM, normalisation, scale, location, impulse position, image seed) "
+            "tuples from a seeded PRNG plus the exhaustive small list of grid parities; operation histories on one "
+            "filter object (1-3 spatial images with NaN/inf, 0-2 pre-transformed images, 3-10 operations: smooth with "
+            "clean/is_fft, re-assigned normalisation/scale/location/fwhm, the first request repeated at the end); every "
+            "impulse position of small grids (all shapes ≤ 5×5×5 in the thorough tier); `_crop` arrays; `cov` filters; "
+            "Resels conversions; refusal tables.  Non-trivial = the cropped kernel is larger than one voxel (smoothing is "
+            "not the identity) resp. a non-empty array / non-zero width; distinct by full JSON of the case")
     assumptions = [
         "exp is external: the Gaussian values the implementation computed (LinearFilter._kernel) are passed "
         "to the smoothing model as exact dyadic rationals; the kernel model returns exact exponents which the "
         "harness compares with -log of those values (rtol 1e-9)",
         "numpy.fft: irfftn(rfftn(x)*rfftn(k)) is the circular convolution on the padded grid (modelled as the "
-        "exact circular sum; FFT round-off absorbed by the 1e-9 tolerance of the correspondence)",
-        "sqrt(8 log 2) is a parameter c of the width-conversion theorems; the oracle checks c*c = 8 log 2 "
-        "and the half-maximum identity numerically",
-        "inv(cholesky(cov)) is a parameter (whitening matrix) of the kernel model",
+        "exact circular sum; FFT round-off absorbed by the 1e-9 tolerance of the correspondence); a pre-transformed "
+        "image (is_fft=True) is represented in the model by the buffer it is the transform of",
+        "NaN/inf reaching the FFT give no finite output (model answer `nonfinite`); values at the binary64 limit after "
+        "nan_to_num(±inf) are `unspecified` in the model (float overflow) and not compared",
+        "sqrt(8 log 2) and sqrt(4 log 2) are parameters c, c4 of the conversion theorems; the oracle checks c*c = 8 log 2 "
+        "and the half-maximum identity numerically; D-th roots (np.power(x, 1/D)) and the l2 norm's square root are "
+        "passed in, the model returns root**D resp. the sum of squares for comparison",
+        "inv(cholesky(cov)) is a parameter (whitening matrix) of the kernel model; the `cov` branch is modelled as built "
+        "(refusal unless the second grid axis has length 3, then the array NumPy's dot produces) and carries no oracle: "
+        "the property's quantifier does not include `cov`",
         "comparisons normsq <= 15 are made exactly in the model and in binary64 in the implementation; cases "
         "with an exponent within 1e-9 of 15 are tagged 'boundary' and skipped",
-        "ties of the property to Image/coordmap plumbing (shape, coordmap equality, refusals) are oracle-only",
+        "ties of the property to Image/coordmap plumbing (shape, coordmap equality) are oracle-only; refusals are "
+        "tables in the model (argGuard, fwhmGuard, reselImageGuard, iterGuard) compared with the raised exception",
+        "Resels.fwhm2resel/resel2fwhm are modelled as built; they are mutually inverse only for wedge = 1 "
+        "(theorem resel_inverse_iff_unit_wedge) — outside the statement, whose inverse clause names width/standard "
+        "deviation (fwhm2sigma/sigma2fwhm), so no oracle is attached to it",
     ]
-    level_note = ("crop symmetry for odd grids is proved at axis level under an explicit symmetric-support "
-                  "hypothesis (`…_partial`); the Resels/ReselImage estimators of fwhm.py are outside the statement "
-                  "and are not modelled")
+    level_note = ("the mass clause has its exact margin (`smooth_mass_at_margin`) but no sharpness theorem (the constant "
+                  "clause has: `constant_margin_sharp`); Gaussian values (`exp`), FFT and roots are parameters; "
+                  "ReselImage/Resels.__iter__ are unusable as built and appear as refusal tables only")
 
     # ------------------------------------------------------------------
     def generate(self, rng, tier):
@@ -170,6 +273,43 @@ class C18(PropertyCheck):
         for g in [{"affine": True, "ndim": 4}, {"affine": True, "ndim": 2}, {"affine": False, "ndim": 3},
                   {"affine": True, "ndim": 3}]:
             cases.append({"kind": "guard", **g})
+        # --- extension round -------------------------------------------------------------
+        for _ in range(110 if quick else 1500):
+            cases.append(_hist_case(rng, tier))
+        for _ in range(30 if quick else 400):
+            cases.append(_crop_case(rng))
+        for _ in range(20 if quick else 250):
+            cases.append(_resel_case(rng))
+        for _ in range(24 if quick else 300):
+            cases.append(_cov_case(rng))
+        for _ in range(6 if quick else 40):
+            cases.append({"kind": "widthsv", "xs": [rng.choice([0.0, 1.0, 6.0, -4.0, 1e-3, rng.randrange(1, 4096) / 64.0])
+                                                      for _ in range(rng.choice([0, 1, 3, 7]))],
+                          "nd": rng.choice([1, 1, 2])})
+        for kind_, nd_, ish_ in [("list", 3, [3, 3, 3]), ("array", 3, [3, 4, 2]), ("array", 4, [2, 3, 4]),
+                                 ("array", 2, [1, 3, 4]), ("image", 1, [1, 1, 3]), ("image", 5, [3, 4, 2]),
+                                 ("image", 3, [3, 4, 2]), ("image", 3, [3, 4, 3]), ("image", 3, [1, 4, 2]),
+                                 ("image", 3, [1, 1, 1]), ("image", 3, [3, 1, 2]), ("image", 3, [2, 4, 2]),
+                                 ("image", 3, [3, 4, 1]), ("image", 3, [4, 4, 2])]:
+            cases.append({"kind": "argguard", "arg": kind_, "ndim": nd_, "ish": ish_, "bshape": [3, 4, 2]})
+        for ln in [0, 1, 2, 3, 4, 6]:
+            cases.append({"kind": "fwhmguard", "len": ln})
+        for a, b in [(0, 0), (1, 0), (0, 1), (1, 1), (5, 0), (0, 5), (5, 5), (1, 5), (5, 1)]:
+            cases.append({"kind": "reselimage", "nres": a, "nfwhm": b})
+        for a, b in [(0, 0), (0, 1), (1, 1)]:
+            cases.append({"kind": "reseliter", "ri": a, "hasfwhm": b})
+        # exhaustive impulse positions on small grids (all shapes ≤ 5×5×5 in the thorough tier)
+        if quick:
+            shapes = [[rng.randint(1, 5) for _ in range(3)] for _ in range(10)] + [[5, 5, 5], [4, 4, 4], [1, 1, 1]]
+        else:
+            shapes = [[a, b, c] for a in range(1, 6) for b in range(1, 6) for c in range(1, 6)]
+        for sh in shapes:
+            for fw_ in ([rng.choice([0.6, 1.5, 2.5, 4.0, 12.0])] if quick else [0.6, 1.5, 2.5, 4.0, 12.0]):
+                k_, lin_ = rng.choice(LINEARS[:7] + LINEARS[9:11])
+                cases.append({"kind": "exh", "shape": sh, "fwhm": fw_, "afftag": k_,
+                              "aff": [list(map(float, lin_[i])) + [0.0] for i in range(3)] + [[0.0, 0.0, 0.0, 1.0]],
+                              "norm": rng.choice(["l1sum", "l1sum", "l1", "l2"]), "scale": rng.choice([1.0, 1.0, -2.0]),
+                              "loc": rng.choice([0.0, 0.0, 3.0]), "mp": [rng.randrange(n) for n in sh]})
         return cases
 
     # ------------------------------------------------------------------
@@ -266,7 +406,20 @@ class C18(PropertyCheck):
         geom = (f"{shape[0]} {shape[1]} {shape[2]} {frs(aff[:3, :3].ravel())} {frs(aff[:3, 3])} "
                 f"{frs(sig)} {frs(W.ravel())}")
         res["lines"].append("kernel " + geom)
-        res["impl"].append(("kernel", list(kimpl.shape), kimpl.ravel().tolist(), [int(s) for s in lf.shape]))
+        kc = getattr(lf, "_kcenter", None)     # private attribute: its absence is no failure by itself
+        kc = [int(v) for v in kc] if kc is not None else [int(-v) for v in dlo]
+        res["impl"].append(("kernel", list(kimpl.shape), kimpl.ravel().tolist(), [int(s) for s in lf.shape], kc))
+        # margins of the "away from the borders" clauses, from the implementation's kernel box
+        res["lines"].append("margins " + geom)
+        res["impl"].append(("text", " ".join(str(v) for v in [kimpl.shape[i] - 1 - kc[i] for i in range(3)] + kc)))
+        # the norms table
+        res["lines"].append(f"norms {kimpl.shape[0]} {kimpl.shape[1]} {kimpl.shape[2]} {frs(kimpl.ravel())}")
+        res["impl"].append(("rats", [float(lf.norms["l1sum"]), float(lf.norms["l1"]), float(lf.norms["l2"]) ** 2], 1e-12))
+        if [kimpl.shape[i] - 1 - kc[i] for i in range(3)] != [int(v) for v in dhi] or kc != [int(-v) for v in dlo]:
+            res["oracle"] = (f"kernel box of LinearFilter(shape={shape}, fwhm={fw}) is not the support of the world-unit "
+                             f"Gaussian about the centre voxel: extents above/below centre {[kimpl.shape[i] - 1 - kc[i] for i in range(3)]}/{kc}, "
+                             f"expected {[int(v) for v in dhi]}/{[int(-v) for v in dlo]}")
+            return res
         nk = norm if norm != "l2" else "l2 " + fr(float(lf.norms["l2"]))
         khead = (f"smooth {geom} {kimpl.shape[0]} {kimpl.shape[1]} {kimpl.shape[2]} {frs(kimpl.ravel())} "
                  f"{nk} {fr(scale)} {fr(loc)} ")
@@ -337,6 +490,35 @@ class C18(PropertyCheck):
                 fails.append(f"smooth differs from direct convolution with the Gaussian kernel at voxel {j}: "
                              f"{a!r} vs {b!r} [shape={shape} fwhm={fw} norm={norm}]")
         if o_x is not None and not fails:
+            # pre-transformed input (is_fft=True): same answer as the plain call, the same answer when
+            # asked twice, and the caller's transform is left alone
+            buf = np.zeros(tuple(int(v) for v in lf.shape))
+            buf[:shape[0], :shape[1], :shape[2]] = x
+            fimg = Image(np.fft.rfftn(buf), cm)
+            fsnap = Snapshot(fft_data=fimg.get_fdata())
+            outs_f = []
+            for rep in (1, 2):
+                try:
+                    outs_f.append(np.asarray(lf.smooth(fimg, is_fft=True).get_fdata()))
+                except Exception as e:
+                    fails.append(f"smooth(pre-transformed image, is_fft=True) raised {type(e).__name__}: {e} [shape={shape}]")
+                    break
+            m = fsnap.changed()
+            if m:
+                res["mutated"] = res["mutated"] or "LinearFilter.smooth(is_fft=True):" + m
+            if len(outs_f) == 2 and not fails:
+                tags.append("isfft-tested")
+                if outs_f[0].shape != shape or not same(outs_f[0], o_x):
+                    fails.append(f"smooth(rfftn(padded x), is_fft=True) differs from smooth(x): shape {outs_f[0].shape}"
+                                 + ("" if outs_f[0].shape != shape else " at voxel %s: %r vs %r" % first_diff(outs_f[0], o_x))
+                                 + f" [shape={shape} fwhm={fw}]")
+                elif not same(outs_f[1], outs_f[0]):
+                    j, u, v = first_diff(outs_f[1], outs_f[0])
+                    fails.append(f"smoothing the same pre-transformed image twice gives different results (voxel {j}: "
+                                 f"{v!r} then {u!r}); the first call overwrote the caller's data [shape={shape} fwhm={fw}]")
+                elif m:
+                    fails.append(f"smooth(is_fft=True) changed the caller's image data [shape={shape} fwhm={fw}]")
+        if o_x is not None and not fails:
             # linearity (affine when location != 0)
             y = rand_img(0.6)
             a, b = c["ab"]
@@ -372,6 +554,16 @@ class C18(PropertyCheck):
                         fails.append(f"constant image 3 is not constant in the interior: "
                                      f"value {float(inner.ravel()[0])!r} [shape={shape} fwhm={fw}]")
                     tags.append("constant-tested")
+                    # one voxel inside the margin the clause does not apply (recorded, not a violation)
+                    lo1, hi1 = np.maximum(lo_i - 1, 0), np.minimum(hi_i + 1, np.array(shape) - 1)
+                    if np.any(lo1 < lo_i) or np.any(hi1 > hi_i):
+                        ring = np.ones(shape, bool)
+                        ring[tuple(slice(int(l), int(h) + 1) for l, h in zip(lo_i, hi_i))] = False
+                        keep = np.zeros(shape, bool)
+                        keep[tuple(slice(int(l), int(h) + 1) for l, h in zip(lo1, hi1))] = True
+                        ring &= keep
+                        off = np.abs(o_k[ring] - (scale * 3.0 + loc)) > tol
+                        tags.append("constant-inside-margin-" + ("all-differ" if off.all() else "some-same" if off.any() else "same"))
             # total intensity preserved for content away from the borders
             lo_j, hi_j = -dlo, np.array(shape) - 1 - dhi
             if np.all(lo_j <= hi_j):
@@ -385,8 +577,388 @@ class C18(PropertyCheck):
                         fails.append(f"total intensity not preserved for content away from the borders: "
                                      f"{float(o_m.sum())!r} vs {float(total)!r} [shape={shape} fwhm={fw}]")
                     tags.append("mass-tested")
+                    # a unit mass one voxel outside the content box: may lose mass (recorded, not a violation)
+                    for ax in range(3):
+                        q = [int(v) for v in lo_j]
+                        q[ax] -= 1
+                        if q[ax] >= 0:
+                            u1 = np.zeros(shape); u1[tuple(q)] = 1.0
+                            o_u = smooth(u1, "unit mass inside the margin")
+                            if o_u is not None:
+                                lost = abs(o_u.sum() - (scale * (K.sum() / normval) + loc * N)) > tol * N
+                                tags.append("mass-inside-margin-" + ("lost" if lost else "kept"))
+                            break
         if fails:
             res["oracle"] = fails[0]
+        return res
+
+    # ------------------------------------------------------------------
+    # extension round
+    @staticmethod
+    def _geom(shape, aff, fw):
+        from nipy.algorithms.kernel_smooth import fwhm2sigma
+        f3 = fw[:3] if isinstance(fw, list) else fw
+        sig = np.ones(3) * np.asarray(fwhm2sigma(f3), float)
+        return (f"{shape[0]} {shape[1]} {shape[2]} {frs(aff[:3, :3].ravel())} {frs(aff[:3, 3])} "
+                f"{frs(sig)} {frs(np.eye(3).ravel())}")
+
+    @staticmethod
+    def _tok(v):
+        v = float(v)
+        return "nan" if v != v else "inf" if v == math.inf else "-inf" if v == -math.inf else fr(v)
+
+    def _hist(self, c):
+        from nipy.algorithms.kernel_smooth import LinearFilter
+        from nipy.core.api import AffineTransform, Image
+        _freeze_once()
+        shape = tuple(c["shape"])
+        aff = np.asarray(c["aff"], float)
+        cm = AffineTransform.from_params("ijk", "xyz", aff)
+        fw = c["fwhm"]
+        f3 = fw[:3] if isinstance(fw, list) else fw
+        tags = ["hist", "aff=" + c["afftag"]]
+        res = {"lines": [], "impl": [], "oracle": None, "nontrivial": False, "tags": tags, "mutated": None}
+        K, E, cen = spec_kernel(shape, aff, f3, None)
+        if np.any(np.abs(E - 15) < 1e-9):
+            tags.append("boundary")
+            return res
+        try:
+            lf = LinearFilter(cm, shape, fwhm=fw, scale=c["scale"], location=c["loc"])
+            lf.normalization = c["norm"]
+        except Exception as e:
+            res["oracle"] = f"LinearFilter(shape={shape}, fwhm={fw}) raised {type(e).__name__}: {e}"
+            return res
+        kimpl = np.asarray(lf._kernel)
+        res["nontrivial"] = bool(max(kimpl.shape) > 1)
+        P = tuple(int(v) for v in lf.shape)
+        N = int(np.prod(shape))
+        datas, toks, bufs = [], [], []
+        for d in c["imgs"]:
+            if d["t"] == "s":
+                rs = np.random.RandomState(d["seed"])
+                x = (rs.randint(-4, 5, size=shape) * (rs.rand(*shape) < 0.5)).astype(float)
+                for _ in range(d["nan"]):
+                    x.flat[rs.randint(N)] = np.nan
+                for _ in range(d["inf"]):
+                    x.flat[rs.randint(N)] = rs.choice([np.inf, -np.inf])
+                datas.append(x); bufs.append(None)
+                toks.append("s " + " ".join(self._tok(v) for v in x.ravel()))
+            else:
+                if "of" in d:
+                    buf = np.zeros(P)
+                    buf[:shape[0], :shape[1], :shape[2]] = datas[d["of"]]
+                else:
+                    rs = np.random.RandomState(d["seed"])
+                    buf = (rs.randint(-4, 5, size=P) * (rs.rand(*P) < 0.3)).astype(float)
+                datas.append(np.fft.rfftn(buf)); bufs.append(buf)
+                toks.append("p " + frs(buf.ravel()))
+        images = [Image(d, cm) for d in datas]
+        snap = Snapshot(**{f"img{i}": im.get_fdata() for i, im in enumerate(images)})
+        outs, optoks = [], []
+        seen = {}
+        fails = []
+        sig = [c["norm"], c["scale"], c["loc"]]
+        for k, op in enumerate(c["ops"]):
+            if op[0] == "smooth":
+                _, i, cl, isf = op
+                optoks.append(f"smooth {i} {int(cl)} {int(isf)}")
+                try:
+                    o = np.asarray(lf.smooth(images[i], clean=bool(cl), is_fft=bool(isf)).get_fdata())
+                    if o.shape != shape:
+                        fails.append(f"op {k}: smooth returned shape {o.shape} for grid {shape}")
+                        ob = "shape"
+                    elif not np.all(np.isfinite(o)):
+                        ob = "nonfinite"
+                    else:
+                        ob = ("v", o.ravel().tolist(), 1e-9 * (1.0 + float(np.abs(o).max())))
+                except Exception as e:
+                    ob = errname(e)
+                outs.append(ob)
+                tags.append("hist-isfft" if isf else "hist-clean" if cl else "hist-plain")
+                if isinstance(ob, str) and ob.startswith("error"):
+                    tags.append("hist-" + ob)
+                # the same request under the same settings must give the same answer, whatever happened between
+                key = (i, bool(cl), bool(isf), tuple(sig))
+                if key in seen:
+                    k0, o0 = seen[key]
+                    if isinstance(ob, str) != isinstance(o0, str) or (isinstance(ob, str) and ob != o0) or (
+                            not isinstance(ob, str) and not np.all(np.abs(np.array(ob[1]) - np.array(o0[1])) <= ob[2])):
+                        fails.append(f"smooth(image {i}, clean={bool(cl)}, is_fft={bool(isf)}) answered differently at "
+                                     f"operations {k0} and {k} of one history on the same filter object "
+                                     f"[shape={shape} fwhm={fw} ops={c['ops']}]")
+                    tags.append("hist-repeat")
+                else:
+                    seen[key] = (k, ob)
+            else:
+                optoks.append(f"{op[0]} {op[1] if op[0] == 'norm' else fr(op[1])}")
+                if op[0] == "norm":
+                    lf.normalization = op[1]; sig[0] = op[1]
+                elif op[0] == "scale":
+                    lf.scale = op[1]; sig[1] = op[1]
+                elif op[0] == "loc":
+                    lf.location = op[1]; sig[2] = op[1]
+                else:
+                    lf.fwhm = op[1]
+                outs.append("unit")
+        # a pre-transformed copy of image j must smooth like image j
+        for (i, cl, isf, sg), (k, ob) in seen.items():
+            d = c["imgs"][i]
+            if isf and d["t"] == "p" and "of" in d and not isinstance(ob, str):
+                for cl2 in (False, True):
+                    other = seen.get((d["of"], cl2, False, sg))
+                    if other and not isinstance(other[1], str):
+                        if not np.all(np.abs(np.array(ob[1]) - np.array(other[1][1])) <= ob[2]):
+                            fails.append(f"smooth(rfftn(padded image {d['of']}), is_fft=True) (op {k}) differs from "
+                                         f"smooth(image {d['of']}) (op {other[0]}) [shape={shape} fwhm={fw}]")
+                        tags.append("hist-isfft-vs-plain")
+        m = snap.changed()
+        if m:
+            res["mutated"] = "LinearFilter.smooth:" + m
+            fails.append(f"a history of smooth calls changed the caller's image data ({m}, "
+                         f"{'pre-transformed' if c['imgs'][int(m[3:])]['t'] == 'p' else 'spatial'}) "
+                         f"[shape={shape} fwhm={fw} ops={c['ops']}]")
+        finals = []
+        for im, d, b in zip(images, c["imgs"], bufs):
+            dat = np.asarray(im.get_fdata())
+            if d["t"] == "s":
+                finals.append(("s", "s " + " ".join(self._tok(v) for v in dat.ravel())))
+            else:
+                finals.append(("p", np.fft.irfftn(dat, s=P).ravel().tolist(), 1e-9 * (1.0 + float(np.abs(b).max()))))
+        fattr = fw[0] if isinstance(fw, list) else fw
+        line = (f"hist {self._geom(shape, aff, fw)} {kimpl.shape[0]} {kimpl.shape[1]} {kimpl.shape[2]} "
+                f"{frs(kimpl.ravel())} {fr(float(lf.norms['l2']))} {c['norm']} {fr(c['scale'])} {fr(c['loc'])} {fr(fattr)} "
+                f"{len(toks)} {' '.join(toks)} {len(optoks)} {' '.join(optoks)}")
+        res["lines"].append(line)
+        res["impl"].append(("hist", outs, finals))
+        if fails:
+            res["oracle"] = fails[0]
+        return res
+
+    def _crop(self, c):
+        from nipy.algorithms.kernel_smooth import _crop
+        shape = tuple(c["shape"])
+        rs = np.random.RandomState(c["seed"])
+        X = (rs.randint(-3, 4, size=shape) * (rs.rand(*shape) < c["density"])).astype(float)
+        if c["tiny"]:
+            X = X * 1e-10
+        snap = Snapshot(X=X)
+        out, m = _crop(X, tol=c["tol"], return_corner=True)
+        out2 = _crop(X, tol=c["tol"])
+        fail = None
+        if np.asarray(out2).shape != np.asarray(out).shape or not np.array_equal(out, out2):
+            fail = "_crop(X) and _crop(X, return_corner=True)[0] differ"
+        return {"lines": [f"crop {shape[0]} {shape[1]} {shape[2]} {frs(X.ravel())} {fr(c['tol'])}"],
+                "impl": [("crop", [int(v) for v in m], list(np.asarray(out).shape), np.asarray(out).ravel().tolist())],
+                "oracle": fail, "nontrivial": bool(np.any(np.abs(X) > c["tol"])),
+                "tags": ["crop", "crop-empty" if not np.any(np.abs(X) > c["tol"]) else "crop-box"],
+                "mutated": ("_crop:" + snap.changed()) if snap.changed() else None}
+
+    def _covk(self, c):
+        from nipy.algorithms.kernel_smooth import LinearFilter, fwhm2sigma
+        from nipy.core.api import AffineTransform
+        shape = tuple(c["shape"])
+        aff = np.asarray(c["aff"], float)
+        cm = AffineTransform.from_params("ijk", "xyz", aff)
+        cov = np.asarray(c["cov"], float)
+        fw = c["fwhm"]
+        try:
+            W = np.linalg.inv(np.linalg.cholesky(cov)); pd = 1
+        except np.linalg.LinAlgError:
+            W = np.eye(3); pd = 0
+        sig = np.ones(3) * np.asarray(fwhm2sigma(fw), float)
+        geom = (f"{shape[0]} {shape[1]} {shape[2]} {frs(aff[:3, :3].ravel())} {frs(aff[:3, 3])} "
+                f"{frs(sig)} {frs(W.ravel())}")
+        snap = Snapshot(cov=cov)
+        try:
+            lf = LinearFilter(cm, shape, fwhm=fw, cov=cov)
+            k = np.asarray(lf._kernel)
+            obs = ("covk", list(k.shape), [int(v) for v in getattr(lf, "_kcenter", ())] or None, [int(v) for v in lf.shape],
+                   k.ravel().tolist())
+            tag = "cov-accepted-n1=3"
+        except Exception as e:
+            obs = ("covk", errname(e))
+            tag = "cov-refused-" + errname(e)[6:]
+        return {"lines": [f"covkernel {pd} {geom}"], "impl": [obs], "oracle": None, "nontrivial": True,
+                "tags": ["covk", tag], "mutated": ("LinearFilter:" + snap.changed()) if snap.changed() else None}
+
+    def _widthsv(self, c):
+        from nipy.algorithms.kernel_smooth import fwhm2sigma, sigma2fwhm
+        xs = list(c["xs"])
+        arr = np.asarray(xs, float)
+        if c["nd"] == 2:
+            arr = arr.reshape(1, -1)
+        arg = arr if c["nd"] == 2 else xs                     # a plain list and a 2-D array
+        snap = Snapshot(a=arr)
+        a, b = np.asarray(fwhm2sigma(arg)), np.asarray(sigma2fwhm(arg))
+        fail = None
+        if a.shape != arr.shape or b.shape != arr.shape:
+            fail = f"width conversion of an array of shape {arr.shape} returned shapes {a.shape}, {b.shape}"
+        elif len(xs) and not (np.allclose(sigma2fwhm(a), arr, rtol=1e-14, atol=0) and np.allclose(fwhm2sigma(b), arr, rtol=1e-14, atol=0)):
+            fail = f"array width conversions not mutually inverse on {xs}"
+        cst = float(sigma2fwhm(1.0))
+        return {"lines": [f"widthsv {fr(cst)} {len(xs)} {frs(xs)}".rstrip()],
+                "impl": [("rats", a.ravel().tolist() + b.ravel().tolist(), 1e-13)], "oracle": fail,
+                "nontrivial": len(xs) > 0, "tags": ["widthsv"],
+                "mutated": ("fwhm2sigma:" + snap.changed()) if snap.changed() else None}
+
+    def _argguard(self, c):
+        from nipy.algorithms.kernel_smooth import LinearFilter
+        from nipy.core.api import AffineTransform, Image
+        bshape = tuple(c["bshape"]); ish = tuple(c["ish"]); nd = c["ndim"]
+        cm3 = AffineTransform.from_params("ijk", "xyz", np.eye(4))
+        lf = LinearFilter(cm3, bshape, fwhm=2.0)
+        full = {1: ish[2:], 2: ish[1:], 3: ish, 4: (2,) + ish, 5: (1, 2) + ish}[nd]
+        if c["arg"] == "list":
+            arg = np.ones(ish).tolist()
+        elif c["arg"] == "array":
+            arg = np.ones(full)
+        else:
+            arg = Image(np.ones(full), AffineTransform.from_params("ijklm"[:nd], "xyztu"[:nd], np.eye(nd + 1)))
+        try:
+            out = lf.smooth(arg)
+            obs = "ok" if out.shape == bshape else f"shape {out.shape}"
+        except Exception as e:
+            obs = errname(e)
+        return {"lines": [f"argguard {c['arg']} {nd} {ish[0]} {ish[1]} {ish[2]} {bshape[0]} {bshape[1]} {bshape[2]}"],
+                "impl": [("text", obs)], "oracle": None, "nontrivial": True, "tags": ["argguard", "arg-" + obs]}
+
+    def _fwhmguard(self, c):
+        from nipy.algorithms.kernel_smooth import LinearFilter
+        from nipy.core.api import AffineTransform
+        cm3 = AffineTransform.from_params("ijk", "xyz", np.eye(4))
+        try:
+            LinearFilter(cm3, (3, 3, 3), fwhm=(2.0 if c["len"] == 0 else [2.0 + k for k in range(c["len"])]))
+            obs = "ok"
+        except Exception as e:
+            obs = errname(e)
+        return {"lines": [f"fwhmguard {c['len']}"], "impl": [("text", obs)], "oracle": None, "nontrivial": True,
+                "tags": ["fwhmguard"]}
+
+    def _reselimage(self, c):
+        from nipy.algorithms.fwhm import ReselImage
+        from nipy.core.api import AffineTransform
+        cm3 = AffineTransform.from_params("ijk", "xyz", np.eye(4))
+        mk = lambda n: None if n == 0 else np.ones((n, 1, 1)) * 2.0   # noqa: E731
+        try:
+            ReselImage(resels=mk(c["nres"]), fwhm=mk(c["nfwhm"]), coordmap=cm3)
+            obs = "ok"
+        except Exception as e:
+            obs = errname(e)
+        return {"lines": [f"reselimage {c['nres']} {c['nfwhm']}"], "impl": [("text", obs)], "oracle": None,
+                "nontrivial": True, "tags": ["reselimage"]}
+
+    def _reseliter(self, c):
+        from nipy.algorithms.fwhm import ReselImage, Resels
+        from nipy.core.api import AffineTransform
+        cm3 = AffineTransform.from_params("ijk", "xyz", np.eye(4))
+        one = np.ones((1, 1, 1)) * 2.0
+        try:
+            if c["ri"]:
+                obj = ReselImage(resels=one, fwhm=one, coordmap=cm3)
+            else:
+                obj = Resels(cm3, fwhm=one if c["hasfwhm"] else None, resels=one if c["hasfwhm"] else None)
+            obs = "self" if obj.__iter__() is obj else "other"
+        except Exception as e:
+            obs = errname(e)
+        return {"lines": [f"reseliter {c['ri']} {c['hasfwhm']}"], "impl": [("text", obs)], "oracle": None,
+                "nontrivial": True, "tags": ["reseliter"]}
+
+    def _resel(self, c):
+        from nipy.algorithms.fwhm import Resels, _calc_detlam
+        from nipy.core.api import AffineTransform
+        lin = np.asarray(c["lin"], float)
+        aff = np.eye(4); aff[:3, :3] = lin; aff[:3, 3] = [3.0, -1.5, 8.0]
+        cm = AffineTransform.from_params("ijk", "xyz", aff)
+        D = c["D"]
+        rs = np.random.RandomState(c["seed"])
+        res_arr = rs.randint(0, 64, size=c["n"]) / 16.0
+        mask = {"none": None, "bool": rs.rand(c["n"]) < 0.6, "zero": np.zeros(c["n"], bool),
+                "float": rs.choice([0.0, 0.7, 1.0, 2.5, -1.5], size=c["n"])}[c["mask"]]
+        R = Resels(cm, D=D, resels=res_arr, mask=mask)
+        c4 = float(np.sqrt(4 * np.log(2.0)))
+        w = float(R.wedge)
+        lines, impl = [], []
+        lines.append("wedge " + frs(lin.ravel())); impl.append(("rats", [w ** D], 1e-12))
+
+        def root_of(r):
+            v = float(np.power(r, 1.0 / D)) if r == r else float("nan")
+            return v if (v == v and v != math.inf and v > 0) else 0.0      # pos_recipr maps all of these to 0
+        for f in c["f"]:
+            r_ = float(R.fwhm2resel(f))
+            lines.append(f"f2r {fr(c4)} {fr(w)} {D} {fr(f)}"); impl.append(("rats", [r_], 1e-12))
+            for rr in (r_, -f, float(f)):
+                back = float(R.resel2fwhm(rr))
+                root = root_of(rr)
+                lines.append(f"r2f {fr(c4)} {fr(w)} {D} {fr(root)}")
+                impl.append(("rats", [back, rr if rr > 0 else 0.0], 1e-12))
+        snap = Snapshot(resels=res_arr, mask=mask if mask is not None else 0)
+        tot, fwhm_, nvox = R.integrate()
+        with np.errstate(all="ignore"):
+            mean = np.float64(tot) / nvox
+        root = root_of(float(mean))
+        mtxt = "0" if mask is None else "1 " + frs(np.asarray(mask, float))
+        lines.append(f"integrate {fr(c4)} {fr(w)} {fr(root)} {c['n']} {frs(res_arr)} {mtxt}")
+        impl.append(("integ", float(tot), int(nvox), float(fwhm_)))
+        six = [float(v) for v in rs.randint(-16, 17, size=6) / 4.0]
+        lines.append("detlam " + frs(six)); impl.append(("rats", [float(_calc_detlam(*six))], 1e-13))
+        return {"lines": lines, "impl": impl, "oracle": None, "nontrivial": True,
+                "tags": ["resel", "resel-D=%d" % D, "resel-mask=" + c["mask"]],
+                "mutated": ("Resels.integrate:" + snap.changed()) if snap.changed() else None}
+
+    def _exh(self, c):
+        """every impulse position of a small grid: the response is the kernel centred on the impulse"""
+        from nipy.algorithms.kernel_smooth import LinearFilter
+        from nipy.core.api import AffineTransform, Image
+        _freeze_once()
+        shape = tuple(c["shape"])
+        aff = np.asarray(c["aff"], float)
+        cm = AffineTransform.from_params("ijk", "xyz", aff)
+        fw, norm, scale, loc = c["fwhm"], c["norm"], c["scale"], c["loc"]
+        tags = ["exh", "aff=" + c["afftag"]]
+        res = {"lines": [], "impl": [], "oracle": None, "nontrivial": False, "tags": tags, "mutated": None}
+        K, E, cen = spec_kernel(shape, aff, fw, None)
+        if np.any(np.abs(E - 15) < 1e-9):
+            tags.append("boundary")
+            return res
+        try:
+            lf = LinearFilter(cm, shape, fwhm=fw, scale=scale, location=loc)
+            lf.normalization = norm
+        except Exception as e:
+            res["oracle"] = f"LinearFilter(shape={shape}, fwhm={fw}) raised {type(e).__name__}: {e}"
+            return res
+        kimpl = np.asarray(lf._kernel)
+        res["nontrivial"] = bool(max(kimpl.shape) > 1)
+        normval = {"l1sum": K.sum(), "l1": np.abs(K).sum(), "l2": math.sqrt((K ** 2).sum())}[norm]
+        tol = 1e-9 * (abs(scale) * (K.sum() / normval) + abs(loc) + 1.0)
+        geom = self._geom(shape, aff, fw)
+        nk = norm if norm != "l2" else "l2 " + fr(float(lf.norms["l2"]))
+        khead = (f"smooth {geom} {kimpl.shape[0]} {kimpl.shape[1]} {kimpl.shape[2]} {frs(kimpl.ravel())} "
+                 f"{nk} {fr(scale)} {fr(loc)} ")
+        n = np.array(shape)
+        Kpad = np.zeros(tuple(3 * n))            # K placed so that index (n + d + cen) holds K[cen + d]
+        Kpad[n[0]:2 * n[0], n[1]:2 * n[1], n[2]:2 * n[2]] = K
+        mp = tuple(c["mp"])
+        npos = 0
+        for p in np.ndindex(*shape):
+            imp = np.zeros(shape); imp[p] = 1.0
+            try:
+                o = np.asarray(lf.smooth(Image(imp, cm)).get_fdata())
+            except Exception as e:
+                res["oracle"] = f"smooth(unit impulse at {p}) on grid {shape} raised {type(e).__name__}: {e}"
+                return res
+            # want[i] = K[cen + i - p]
+            st = n + cen - np.array(p)
+            want = scale * Kpad[st[0]:st[0] + n[0], st[1]:st[1] + n[1], st[2]:st[2] + n[2]] / normval + loc
+            npos += 1
+            if o.shape != shape or not np.all(np.abs(o - want) <= tol):
+                j = np.unravel_index(int(np.argmax(np.abs(o - want))), shape) if o.shape == shape else None
+                res["oracle"] = (f"impulse at {tuple(int(v) for v in p)} on grid {shape} (fwhm={fw}, kernel shape {kimpl.shape}): "
+                                 f"response is not the world-unit Gaussian centred on the impulse"
+                                 + (f" (voxel {tuple(int(v) for v in j)}: {float(o[j])!r} vs {float(want[j])!r})" if j else f" (shape {o.shape})"))
+                return res
+            if p == mp or p == tuple(n - 1):
+                res["lines"].append(khead + frs(imp.ravel())); res["impl"].append(("img", o.ravel().tolist(), tol))
+        tags.append("exh-positions=%d" % (1 if npos == 1 else 8 if npos <= 8 else 27 if npos <= 27 else 64 if npos <= 64 else 125))
         return res
 
     # ------------------------------------------------------------------
@@ -394,7 +966,7 @@ class C18(PropertyCheck):
         kind = impl_obs[0]
         if kind == "text":
             return None if impl_obs[1] == model_out else f"impl={impl_obs[1]} model={model_out}"
-        if model_out.startswith(("error", "bad-op", "empty", "kernel-shape-mismatch")):
+        if kind not in ("hist", "covk") and model_out.startswith(("error", "bad-op", "empty", "kernel-shape-mismatch")):
             return f"impl returned values, model says {model_out[:80]}"
         if kind in ("rats", "img"):
             vals, tol = impl_obs[1], impl_obs[2]
@@ -407,13 +979,15 @@ class C18(PropertyCheck):
                     return f"index {k}: impl={float(a)!r} model={float(b)!r}"
             return None
         if kind == "kernel":
-            _, kshape, kvals, pshape = impl_obs
+            _, kshape, kvals, pshape = impl_obs[:4]
             head, _, tail = model_out.partition(" | ")
             h = [int(t) for t in head.split()]
             if h[3:6] != list(kshape):
                 return f"cropped kernel shape impl={kshape} model={h[3:6]} (lo={h[0:3]})"
             if h[9:12] != list(pshape):
                 return f"padded FFT shape impl={pshape} model={h[9:12]}"
+            if h[6:9] != list(impl_obs[4]):
+                return f"kernel centre index impl={impl_obs[4]} model={h[6:9]}"
             es = tail.split()
             if len(es) != len(kvals):
                 return f"kernel size impl={len(kvals)} model={len(es)}"
@@ -426,19 +1000,125 @@ class C18(PropertyCheck):
                     if not close(v, w, 1e-9, 0):
                         return f"kernel[{k}] impl={v!r} model exp(-{e[:40]})={w!r}"
             return None
+        if kind == "hist":
+            _, outs, finals = impl_obs
+            left, sep, right = model_out.partition(" || ")
+            if not sep:
+                return f"model says {model_out[:80]}"
+            mouts, mimgs = left.split(" ; "), right.split(" ; ")
+            if len(mouts) != len(outs) or len(mimgs) != len(finals):
+                return f"history length impl={len(outs)}/{len(finals)} model={len(mouts)}/{len(mimgs)}"
+            for k, (o, m) in enumerate(zip(outs, mouts)):
+                m = m.strip()
+                if m == "unspecified":
+                    continue
+                if isinstance(o, str):
+                    if o != m:
+                        return f"op {k}: impl={o} model={m[:60]}"
+                    continue
+                if not m.startswith("v "):
+                    return f"op {k}: impl returned values, model says {m[:60]}"
+                mv = parse_rats(m[2:])
+                if len(mv) != len(o[1]):
+                    return f"op {k}: length impl={len(o[1])} model={len(mv)}"
+                for j, (a, b) in enumerate(zip(o[1], mv)):
+                    if abs(float(a) - float(b)) > o[2]:
+                        return f"op {k} index {j}: impl={float(a)!r} model={float(b)!r}"
+            for k, (f, m) in enumerate(zip(finals, mimgs)):
+                m = m.strip()
+                if f[0] == "s":
+                    if f[1] != m:
+                        return f"caller image {k} after the history: impl differs from the model (unchanged)"
+                else:
+                    mv = parse_rats(m[2:])
+                    if len(mv) != len(f[1]):
+                        return f"caller image {k}: length impl={len(f[1])} model={len(mv)}"
+                    for j, (a, b) in enumerate(zip(f[1], mv)):
+                        if abs(float(a) - float(b)) > f[2]:
+                            return (f"caller's pre-transformed image {k} after the history: buffer index {j} "
+                                    f"impl={float(a)!r} model (unchanged)={float(b)!r}")
+            return None
+        if kind == "crop":
+            _, m, kshape, vals = impl_obs
+            head, _, tail = model_out.partition(" | ")
+            try:
+                h = [int(t) for t in head.split()]
+            except ValueError:
+                return f"model says {model_out[:80]}"
+            if h[0:3] != list(m) or h[3:6] != list(kshape):
+                return f"crop corner/shape impl={m}/{kshape} model={h[0:3]}/{h[3:6]}"
+            mv = parse_rats(tail)
+            if len(mv) != len(vals) or any(float(a) != float(b) for a, b in zip(vals, mv)):
+                return f"cropped values differ: impl={vals[:6]} model={[float(v) for v in mv[:6]]}"
+            return None
+        if kind == "covk":
+            if len(impl_obs) == 2:
+                return None if impl_obs[1] == model_out else f"impl={impl_obs[1]} model={model_out[:80]}"
+            _, kshape, kc, pshape, kvals = impl_obs
+            head, sep, tail = model_out.partition(" | ")
+            if not sep:
+                return f"impl built a kernel of shape {kshape}, model says {model_out[:80]}"
+            h = [int(t) for t in head.split()]
+            if h[0:3] != list(kshape) or (kc is not None and h[3:6] != list(kc)) or h[6:9] != list(pshape):
+                return f"cov kernel shape/centre/padded impl={kshape}/{kc}/{pshape} model={h[0:3]}/{h[3:6]}/{h[6:9]}"
+            es = tail.split()
+            if len(es) != len(kvals):
+                return f"kernel size impl={len(kvals)} model={len(es)}"
+            for k, (v, e) in enumerate(zip(kvals, es)):
+                if e == "x":
+                    if v != 0.0 and abs(-math.log(v) - 15) > 1e-6:
+                        return f"cov kernel[{k}] impl={v!r} model: cut off"
+                else:
+                    ef = float(parse_rats(e)[0])
+                    if not close(v, math.exp(-ef), 1e-9, 0) and not (v == 0.0 and abs(ef - 15) < 1e-6):
+                        return f"cov kernel[{k}] impl={v!r} model exp(-{ef!r})"
+            return None
+        if kind == "integ":
+            _, tot, nvox, fw_ = impl_obs
+            t = model_out.split()
+            if len(t) != 4:
+                return f"model says {model_out[:80]}"
+            if not close(tot, Fraction(t[0]), 1e-12, 1e-12):
+                return f"integrate total impl={tot!r} model={float(Fraction(t[0]))!r}"
+            if int(t[1]) != nvox:
+                return f"integrate nvoxel impl={nvox} model={t[1]}"
+            if not close(fw_, Fraction(t[3]), 1e-12, 1e-12):
+                return f"integrate fwhm impl={fw_!r} model={float(Fraction(t[3]))!r}"
+            return None
         return "unknown observation kind"
 
     def shrink(self, case):
-        if case.get("kind") != "filter":
+        kind = case.get("kind")
+        if kind not in ("filter", "hist", "exh"):
             return
+        if kind == "hist":
+            ops, imgs = case["ops"], case["imgs"]
+            for k in range(len(ops)):
+                if len(ops) > 1:
+                    c = dict(case); c["ops"] = ops[:k] + ops[k + 1:]; yield c
+            used = {o[1] for o in ops if o[0] == "smooth"}
+            used |= {imgs[i]["of"] for i in used if "of" in imgs[i]}
+            for i in range(len(imgs)):
+                if i not in used and len(imgs) > 1:
+                    ren = lambda t: t - 1 if t > i else t   # noqa: E731
+                    c = dict(case)
+                    c["imgs"] = [({**d, "of": ren(d["of"])} if "of" in d else d) for t, d in enumerate(imgs) if t != i]
+                    c["ops"] = [([o[0], ren(o[1])] + o[2:]) if o[0] == "smooth" else o for o in ops]
+                    yield c
+            for i, d in enumerate(imgs):
+                if d.get("nan") or d.get("inf"):
+                    c = dict(case); c["imgs"] = [({**e, "nan": 0, "inf": 0} if t == i else e) for t, e in enumerate(imgs)]
+                    yield c
         sh = case["shape"]
         for i in range(3):
             for new in (sh[i] - 2, sh[i] - 1):
                 if new >= 1:
                     c = dict(case); s = list(sh); s[i] = new; c["shape"] = s
-                    c["p"] = [min(v, n - 1) for v, n in zip(case["p"], s)]
+                    for key in ("p", "mp"):
+                        if key in case:
+                            c[key] = [min(v, n - 1) for v, n in zip(case[key], s)]
                     yield c
-        if case["cov"] is not None:
+        if case.get("cov") is not None:
             c = dict(case); c["cov"] = None; yield c
         if case["norm"] != "l1sum":
             c = dict(case); c["norm"] = "l1sum"; yield c
